@@ -45,6 +45,7 @@ struct IoCounters {
   int64_t fired_at = -1;      // eligible-index of first injected failure
   uint64_t injected = 0;
   std::string fired_desc;
+  std::vector<std::string> eligible_class;  // counting runs only: "<call>.<file class>" per eligible call
 };
 
 void io_set_root(const std::string &root);   // absolute directory prefix to intercept
